@@ -80,6 +80,7 @@ fn main() {
         match (prop, fam) {
             ("C16", "one") => c16::worker_one(arg),
             ("C16", _) => c16::worker(fam, start, end, step, arg),
+            ("C04", "preempt") => preempt_family::worker("C04", start, end, step, arg),
             ("C02", _) | ("C04", _) => c02::worker(fam, start, end, step, arg),
             ("C18", _) => c18::worker(fam, start, end, step, arg),
             ("C11", _) => c11::worker(fam, start, end, step, arg),
